@@ -47,25 +47,25 @@ func (nopLogger) Warn(string, ...interface{})  {}
 func (nopLogger) Error(string, ...interface{}) {}
 
 type action struct {
-	Kind   string `json:"kind"` // live write deliver alter corrupt stop writeInSelect
-	Descr  string `json:"descr"`
-	filter sqlgen.Filter
+	Kind    string `json:"kind"` // live write deliver alter corrupt stop writeInSelect
+	Descr   string `json:"descr"`
+	filter  sqlgen.Filter
 	batched bool
-	wkind  string // insert update delete upsert
-	row    interface{}
-	n      int
-	idx    int
+	wkind   string // insert update delete upsert
+	row     interface{}
+	n       int
+	idx     int
 }
 
 type liveQuery struct {
-	filter  sqlgen.Filter
-	descr   string
-	rr      *reactive.Rerunner
-	mu      sync.Mutex
-	rows    []string
-	runs    int
-	err     error
-	stopped bool
+	filter          sqlgen.Filter
+	descr           string
+	rr              *reactive.Rerunner
+	mu              sync.Mutex
+	rows            []string
+	runs            int
+	err             error
+	stopped         bool
 	startedAtCommit int // number of commits when registered
 }
 
@@ -117,7 +117,7 @@ func gen(t *rapid.T) world {
 	tbl := schema.ByName[w.table]
 	n := rapid.IntRange(6, 30).Draw(t, "nactions")
 	for i := 0; i < n; i++ {
-		kinds := []string{"live", "live", "write", "write", "write", "write", "deliver", "deliver", "deliver", "writeInSelect", "writeAfterSelect", "alter", "corrupt", "stop"}
+		kinds := []string{"live", "live", "write", "write", "write", "write", "deliver", "deliver", "deliver", "writeInSelect", "writeAfterSelect", "alter", "corrupt", "corrupt", "stop"}
 		a := action{Kind: rapid.SampledFrom(kinds).Draw(t, "kind")}
 		if i == 0 {
 			a.Kind = "live"
@@ -159,6 +159,10 @@ func gen(t *rapid.T) world {
 		case "stop":
 			a.idx = rapid.IntRange(0, 5).Draw(t, "which")
 			a.Descr = fmt.Sprintf("stop %d", a.idx)
+		case "corrupt":
+			// 0: a value of the wrong type; p > 0: one value too many, shifted from position p on
+			a.n = rapid.SampledFrom([]int{0, 0, 1, 2, 3, 5, 8}).Draw(t, "corruptkind")
+			a.Descr = fmt.Sprintf("corrupt %d", a.n)
 		default:
 			a.Descr = a.Kind
 		}
@@ -202,14 +206,14 @@ func check(w world) (nt bool, labels []string, sig string, err error) {
 	var queue []fakebinlog.Queued
 	tableID := uint64(100)
 	commits := 0
-	pendingCorrupt := false
+	pendingCorrupt := ""
 	var qmu sync.Mutex
 	enqueue := func() {
 		for _, c := range eng.TakeChanges() {
 			q := fakebinlog.Queued{Change: c, NCols: eng.NCols(w.table), TableID: tableID}
-			if pendingCorrupt {
-				q.Corrupt = "type"
-				pendingCorrupt = false
+			if pendingCorrupt != "" {
+				q.Corrupt = pendingCorrupt
+				pendingCorrupt = ""
 			}
 			queue = append(queue, q)
 			commits++
@@ -378,7 +382,10 @@ func check(w world) (nt bool, labels []string, sig string, err error) {
 			}
 		case "corrupt":
 			qmu.Lock()
-			pendingCorrupt = true
+			pendingCorrupt = "type"
+			if a.n > 0 {
+				pendingCorrupt = fmt.Sprintf("wide:%d", a.n)
+			}
 			qmu.Unlock()
 			undecodable = true
 		case "stop":
